@@ -45,6 +45,48 @@ fn pipe_drop_output(cfg: &Cfg) {
     if mode == 3 {
         out.set_backpressure_depth(1);
     }
+    if mode == 4 {
+        // the caller has already let go of the Desync (the pipe holds the last strong reference); the producer is suspended
+        // inside the processing of an item when the output stream is dropped, and the awaited event only happens afterwards
+        drop(out);
+        let gate = Gate::new();
+        let (st3, g3) = (st.clone(), gate.clone());
+        let (stream2, ctl2) = scripted_stream(&[]);
+        let closure_drops2 = Arc::new(AtomicUsize::new(0));
+        let dc2 = DropCount(closure_drops2.clone());
+        let out2 = pipe(obj.clone(), stream2, move |p: &mut Payload, item: u32| {
+            let _keep = &dc2;
+            p.check("pipe-item");
+            let (st4, g4) = (st3.clone(), g3.clone());
+            async move {
+                st4.enter("pipe-item");
+                g4.await;
+                vsched::thread::yield_now();
+                st4.exit();
+                item + 100
+            }
+            .boxed()
+        });
+        let weak = Arc::downgrade(&obj);
+        drop(obj);
+        ctl2.push(1);
+        rt::quiesce();
+        let prev = rt::note("in:drop-output-stream");
+        drop(out2);
+        rt::note(&prev);
+        gate.open();
+        rt::quiesce();
+        if ctl2.stream_drops() != 1 || closure_drops2.load(AO::SeqCst) != 1 {
+            rt::violation(format!("PIPE-LEAK output stream dropped while the producer was suspended in the processing of an item: input stream drops={} closure drops={}", ctl2.stream_drops(), closure_drops2.load(AO::SeqCst)));
+        }
+        if weak.strong_count() != 0 || w.payload_drops.load(AO::SeqCst) != 1 {
+            rt::violation(format!("PIPE-LEAK the Desync is still alive ({} strong references, payload dropped {} times) after the pipe that held the last reference was shut down", weak.strong_count(), w.payload_drops.load(AO::SeqCst)));
+        }
+        check_no_unplanned_panics();
+        rt::quiesce();
+        shutdown();
+        return;
+    }
     let ctl2 = ctl.clone();
     let t1 = spawn(move || {
         match mode {
